@@ -1,4 +1,5 @@
 import PyPhysim.Proofs.C20Real
+import Mathlib.Tactic.FinCases
 
 /-!
 `ℂ`-specific facts: positivity of the Frobenius form, full column rank ⇔ the
@@ -106,4 +107,113 @@ theorem whiten_identity (C Q : Matrix (Fin n) (Fin n) ℂ) (L : Fin n → ℂ)
         rw [hsq]
         field_simp
 
+/-- value of the Frobenius form of `Q1Q1ᴴ − Q2Q2ᴴ` from the singular values of `Q1ᴴQ2` -/
+theorem fro_proj_svd {p q r : Nat} (Q1 : Matrix (Fin m) (Fin p) ℂ) (Q2 : Matrix (Fin m) (Fin q) ℂ)
+    (U : Matrix (Fin p) (Fin r) ℂ) (V : Matrix (Fin q) (Fin r) ℂ) (s : Fin r → ℝ)
+    (h1 : Q1ᴴ * Q1 = 1) (h2 : Q2ᴴ * Q2 = 1) (hU : Uᴴ * U = 1) (hV : Vᴴ * V = 1)
+    (hM : Q1ᴴ * Q2 = U * diagonal (fun i => ((s i : ℝ) : ℂ)) * Vᴴ) :
+    trace ((Q1 * Q1ᴴ - Q2 * Q2ᴴ) * (Q1 * Q1ᴴ - Q2 * Q2ᴴ)ᴴ)
+      = (((p : ℝ) + (q : ℝ) - 2 * ∑ i, s i * s i : ℝ) : ℂ) := by
+  rw [fro_proj_diff _ _ h1 h2,
+    fro_of_svd _ U V _ (fun i => by simp [Complex.star_def, Complex.conj_ofReal]) hU hV hM]
+  push_cast
+  ring
+
+theorem csqrt_div (x : ℝ) :
+    (((Real.sqrt ((x : ℂ).re) : ℝ) : ℂ)) / ((Real.sqrt (1 + 1 : ℂ).re : ℝ) : ℂ)
+      = ((Real.sqrt (x / 2) : ℝ) : ℂ) := by
+  have h2 : (1 + 1 : ℂ).re = 2 := by norm_num
+  rw [h2, Complex.ofReal_re, Real.sqrt_div' x (by norm_num : (0 : ℝ) ≤ 2)]
+  push_cast
+  rfl
+
+/-- columns of `V` are eigenvectors when `A V = V diag(D)` -/
+theorem eigen_column {K : Type} [CommRing K] (A V : Matrix (Fin n) (Fin n) K) (D : Fin n → K)
+    (h : A * V = V * diagonal D) (j i : Fin n) :
+    ∑ l, A i l * V l j = D j * V i j := by
+  have := congrFun (congrFun h i) j
+  rw [mul_apply, mul_diagonal] at this
+  rw [this, mul_comm]
+
+/-- `A V = U Σ` for a full SVD `A = U Σ Vᴴ` (`Vᴴ` unitary) -/
+theorem svd_right {K : Type} [CommRing K] [StarRing K] {c : Nat} (A : Matrix (Fin m) (Fin c) K)
+    (U : Matrix (Fin m) (Fin m) K) (Sg : Matrix (Fin m) (Fin c) K) (VH : Matrix (Fin c) (Fin c) K)
+    (hA : A = U * Sg * VH) (hV : VH * VHᴴ = 1) : A * VHᴴ = U * Sg := by
+  rw [hA, Matrix.mul_assoc, hV, Matrix.mul_one]
+
+/-- the singular values of `Q1ᴴ Q2` (orthonormal `Q1`, `Q2`) are at most one: the cosines
+    of the principal angles -/
+theorem sv_le_one {p q r : Nat} (Q1 : Matrix (Fin m) (Fin p) ℂ) (Q2 : Matrix (Fin m) (Fin q) ℂ)
+    (U : Matrix (Fin p) (Fin r) ℂ) (V : Matrix (Fin q) (Fin r) ℂ) (s : Fin r → ℝ)
+    (h1 : Q1ᴴ * Q1 = 1) (h2 : Q2ᴴ * Q2 = 1) (hU : Uᴴ * U = 1) (hV : Vᴴ * V = 1)
+    (hM : Q1ᴴ * Q2 = U * diagonal (fun i => ((s i : ℝ) : ℂ)) * Vᴴ) (h0 : ∀ i, 0 ≤ s i) :
+    ∀ i, s i ≤ 1 := by
+  set S : Matrix (Fin r) (Fin r) ℂ := diagonal (fun i => ((s i : ℝ) : ℂ)) with hS
+  have hSh : Sᴴ = S := by
+    rw [hS, diagonal_conjTranspose]; congr 1; funext i
+    simp [Complex.conj_ofReal]
+  have hG : (1 : Matrix (Fin p) (Fin p) ℂ) * (Q1ᴴ * Q1) = 1 := by rw [h1, Matrix.one_mul]
+  have hid : (1 - Q1 * Q1ᴴ) * (1 - Q1 * Q1ᴴ) = 1 - Q1 * Q1ᴴ := by
+    simpa using oproj_idem Q1 1 hG
+  have hhe : (1 - Q1 * Q1ᴴ)ᴴ = 1 - Q1 * Q1ᴴ := by
+    simpa using oproj_herm Q1 1 hG
+  have hMh : Q2ᴴ * Q1 = V * S * Uᴴ := by
+    have := congrArg conjTranspose hM
+    simpa [conjTranspose_mul, hSh, Matrix.mul_assoc] using this
+  set Y : Matrix (Fin m) (Fin r) ℂ := (1 - Q1 * Q1ᴴ) * Q2 * V with hY
+  have key : Yᴴ * Y = 1 - S * S := by
+    calc Yᴴ * Y = Vᴴ * (Q2ᴴ * ((1 - Q1 * Q1ᴴ) * (1 - Q1 * Q1ᴴ)) * Q2) * V := by
+          rw [hY]; simp only [conjTranspose_mul, hhe, Matrix.mul_assoc]
+      _ = Vᴴ * (Q2ᴴ * Q2 - (Q2ᴴ * Q1) * (Q1ᴴ * Q2)) * V := by
+          rw [hid, Matrix.mul_sub, Matrix.sub_mul, Matrix.mul_one]; simp only [Matrix.mul_assoc]
+      _ = Vᴴ * V - (Vᴴ * V) * S * (Uᴴ * U) * S * (Vᴴ * V) := by
+          rw [h2, hMh, hM, Matrix.mul_sub, Matrix.sub_mul, Matrix.mul_one]
+          simp only [Matrix.mul_assoc]
+      _ = 1 - S * S := by rw [hV, hU]; simp only [Matrix.one_mul, Matrix.mul_one]
+  intro i
+  have hii := congrFun (congrFun key i) i
+  rw [mul_apply, Matrix.sub_apply, one_apply_eq, hS, diagonal_mul_diagonal, diagonal_apply_eq] at hii
+  have hre := congrArg Complex.re hii
+  rw [Complex.re_sum] at hre
+  have hnn : 0 ≤ ∑ l, ((Yᴴ) i l * Y l i).re := by
+    refine Finset.sum_nonneg (fun l _ => ?_)
+    rw [conjTranspose_apply, Complex.star_def, mul_comm, Complex.mul_conj]
+    simp [Complex.normSq_nonneg]
+  rw [hre] at hnn
+  simp only [Complex.sub_re, Complex.one_re, Complex.mul_re, Complex.ofReal_re, Complex.ofReal_im,
+    mul_zero, sub_zero] at hnn
+  nlinarith [h0 i]
+
 end PyPhysim.LinAlg.Pf
+
+namespace PyPhysim.LinAlg.Wit
+open PyPhysim.LinAlg
+
+/-- witness for the dimension mismatch: the line spanned by `e₁` inside `ℂ²` … -/
+def Q1 : Mat ℂ 2 1 := fun i _ => if i.val = 0 then 1 else 0
+/-- … and the whole plane -/
+def Q2 : Mat ℂ 2 2 := eye
+/-- thin SVD of `Q1ᴴ Q2 = [1 0]`: `U = [1]`, `s = [1]`, `V = e₁` -/
+def U : Mat ℂ 1 1 := eye
+def s : Fin 1 → ℝ := fun _ => 1
+
+theorem hQ1 : matMul (cT Q1) Q1 = eye := by
+  funext i j; fin_cases i; fin_cases j
+  simp [matMul, cT, sumFin, Q1, eye, Conj.conj]
+
+theorem hQ2 : matMul (cT Q2) Q2 = eye := by
+  funext i j; fin_cases i <;> fin_cases j <;>
+  simp [matMul, cT, sumFin, Q2, eye, Conj.conj]
+
+theorem hU : matMul (cT U) U = eye := by
+  funext i j; fin_cases i; fin_cases j
+  simp [matMul, cT, sumFin, U, eye, Conj.conj]
+
+theorem hsvd : pangleArg Q1 Q2 = matMul (matMul U (diagM (fun i => ((s i : ℝ) : ℂ)))) (cT Q1) := by
+  funext i j; fin_cases i; fin_cases j <;>
+  simp [pangleArg, matMul, cT, sumFin, Q1, Q2, U, s, eye, diagM, Conj.conj]
+
+theorem angles_zero : chordalFromAngles (principalAngles ([1] : List ℝ)) = 0 := by
+  simp [chordalFromAngles, principalAngles, sumSinSq, Transc.acos, Transc.sin, RSqrt.sqrt]
+
+end PyPhysim.LinAlg.Wit
